@@ -2,6 +2,7 @@ package e5path
 
 import (
 	"fmt"
+	"go/ast"
 	"go/token"
 	"go/types"
 	"sort"
@@ -129,7 +130,46 @@ func isNotifyCall(in ssa.Instruction) bool {
 		return cc.Method.Name() == "NotifyErrorListeners"
 	}
 	if c := cc.StaticCallee(); c != nil {
-		return c.Name() == "NotifyErrorListeners"
+		if c.Name() == "NotifyErrorListeners" {
+			return true
+		}
+		return helperNotifies(c, 0)
+	}
+	return false
+}
+
+// helperNotifies: a helper of the repository that notifies the error listeners on every path (the notifying
+// block dominates every return).
+func helperNotifies(h *ssa.Function, depth int) bool {
+	if depth > 1 || !load.InRepo(h) || len(h.Blocks) == 0 {
+		return false
+	}
+	for _, b := range h.Blocks {
+		notifies := false
+		for _, in := range b.Instrs {
+			call, ok := in.(ssa.CallInstruction)
+			if !ok {
+				continue
+			}
+			cc := call.Common()
+			if cc.IsInvoke() && cc.Method.Name() == "NotifyErrorListeners" {
+				notifies = true
+			} else if c := cc.StaticCallee(); c != nil && (c.Name() == "NotifyErrorListeners" || helperNotifies(c, depth+1)) {
+				notifies = true
+			}
+		}
+		if !notifies {
+			continue
+		}
+		all := true
+		for _, rb := range h.Blocks {
+			if _, isRet := rb.Instrs[len(rb.Instrs)-1].(*ssa.Return); isRet && !dominatesBlock(b, rb) {
+				all = false
+			}
+		}
+		if all {
+			return true
+		}
 	}
 	return false
 }
@@ -223,40 +263,54 @@ func CheckBeforeInsert(p *load.Prog, r *oblig.Report, rule string, specs []Table
 			continue
 		}
 		nStores := 0
+		// the callback itself, or a helper method of the listener into which the check and the insert were moved together
+		cands := []*ssa.Function{fn}
 		for _, b := range fn.Blocks {
 			for _, in := range b.Instrs {
-				mu, ok := in.(*ssa.MapUpdate)
-				if !ok || AccessPath(mu.Map) != sp.MapPath {
-					continue
+				if ci, ok := in.(ssa.CallInstruction); ok {
+					if h := ci.Common().StaticCallee(); h != nil && h.Pkg == fn.Pkg && len(h.Blocks) > 0 && h.Signature.Recv() != nil && !ast.IsExported(h.Name()) &&
+						len(ci.Common().Args) > 0 && ci.Common().Args[0] == ssa.Value(fn.Params[0]) {
+						cands = append(cands, h)
+					}
 				}
-				nStores++
-				key := AccessPath(mu.Key)
-				okStore, why := false, "no lookup of the same key in "+sp.MapPath+" precedes the insert"
-				for _, b2 := range fn.Blocks {
-					for _, in2 := range b2.Instrs {
-						lk, ok := in2.(*ssa.Lookup)
-						if !ok || AccessPath(lk.X) != sp.MapPath {
-							continue
-						}
-						if AccessPath(lk.Index) != key && lk.Index != mu.Key {
-							continue
-						}
-						for _, pb := range presentBranches(lk) {
-							switch {
-							case !pb.If.Block().Dominates(b):
-								why = "the duplicate test does not dominate the insert: on some path the " + sp.What + " is stored without having been checked"
-							case !blockNotifies(pb.Present):
-								why = "the branch taken for an existing " + sp.What + " does not notify the error listeners"
-							default:
-								okStore = true
+			}
+		}
+		for _, fn := range cands {
+			for _, b := range fn.Blocks {
+				for _, in := range b.Instrs {
+					mu, ok := in.(*ssa.MapUpdate)
+					if !ok || AccessPath(mu.Map) != sp.MapPath {
+						continue
+					}
+					nStores++
+					key := AccessPath(mu.Key)
+					okStore, why := false, "no lookup of the same key in "+sp.MapPath+" precedes the insert"
+					for _, b2 := range fn.Blocks {
+						for _, in2 := range b2.Instrs {
+							lk, ok := in2.(*ssa.Lookup)
+							if !ok || AccessPath(lk.X) != sp.MapPath {
+								continue
+							}
+							if AccessPath(lk.Index) != key && lk.Index != mu.Key {
+								continue
+							}
+							for _, pb := range presentBranches(lk) {
+								switch {
+								case !pb.If.Block().Dominates(b):
+									why = "the duplicate test does not dominate the insert: on some path the " + sp.What + " is stored without having been checked"
+								case !blockNotifies(pb.Present):
+									why = "the branch taken for an existing " + sp.What + " does not notify the error listeners"
+								default:
+									okStore = true
+								}
 							}
 						}
 					}
-				}
-				if okStore {
-					r.OK(rule, construct, p.Pos(mu.Pos()), "dominating-lookup+notify", "key "+key)
-				} else {
-					r.Bad(rule, construct, p.Pos(mu.Pos()), "duplicate "+sp.What+" can be accepted silently: "+why)
+					if okStore {
+						r.OK(rule, construct, p.Pos(mu.Pos()), "dominating-lookup+notify", "key "+key)
+					} else {
+						r.Bad(rule, construct, p.Pos(mu.Pos()), "duplicate "+sp.What+" can be accepted silently: "+why)
+					}
 				}
 			}
 		}
@@ -674,6 +728,29 @@ func ElementTypeKept(p *load.Prog, r *oblig.Report, rule string) {
 		return
 	}
 	n := 0
+	// every append that contributes to a value stored into a GenericTypes field (directly, or through a local list)
+	seen := map[ssa.Value]bool{}
+	var appends []*ssa.Call
+	var trace func(v ssa.Value)
+	trace = func(v ssa.Value) {
+		if seen[v] {
+			return
+		}
+		seen[v] = true
+		switch x := v.(type) {
+		case *ssa.Phi:
+			for _, e := range x.Edges {
+				trace(e)
+			}
+		case *ssa.Call:
+			if bi, isB := x.Common().Value.(*ssa.Builtin); isB && bi.Name() == "append" {
+				appends = append(appends, x)
+				trace(x.Common().Args[0])
+			}
+		case *ssa.UnOp:
+			// a load of the field itself (append to the field): the stores to it are traced separately
+		}
+	}
 	for _, b := range fn.Blocks {
 		for _, in := range b.Instrs {
 			st, ok := in.(*ssa.Store)
@@ -684,13 +761,13 @@ func ElementTypeKept(p *load.Prog, r *oblig.Report, rule string) {
 			if !ok || fieldNameOf(fa.X.Type(), fa.Field) != "GenericTypes" {
 				continue
 			}
-			call, ok := st.Val.(*ssa.Call)
-			if !ok {
-				continue // the empty literal
-			}
-			if bi, isB := call.Common().Value.(*ssa.Builtin); !isB || bi.Name() != "append" {
-				continue
-			}
+			trace(st.Val)
+		}
+	}
+	for _, call := range appends {
+		{
+			b := call.Block()
+			st := call
 			n++
 			bad := ""
 			for _, ce := range DominatingConds(b) {
